@@ -18,6 +18,7 @@ impl Template {
     #[verifier::external_body]
     pub fn render_to(&self, writer: &mut Sink, runtime: &dyn Runtime) -> (r: Result<()>)
         requires !old(writer).failed@,                                                      // [C10:no_write_after_failure]
+                 runtime.writable(),
         ensures renders_as_child(self.rid(), runtime.ident(), *old(writer), *final(writer), r)
     { unimplemented!() }
 }
@@ -145,6 +146,7 @@ impl Conditional {
 //@ sig fn render_to(&self, writer: &mut Sink, runtime: &dyn Runtime) -> (r: Result<()>)
 //@ spec
     requires !old(writer).failed@,
+        runtime.writable(),                                                            // [C02:scope_has_assignment_and_counter_layers]
     ensures
         sink_safe(*old(writer), *final(writer), r),                                              // [C10:conditional_failed_sink_is_error]
         // exactly one branch: the true branch iff condition == mode, else the else branch if there is one, else nothing
@@ -214,6 +216,7 @@ impl Case {
 //@ sig fn render_to(&self, writer: &mut Sink, runtime: &dyn Runtime) -> (r: Result<()>)
 //@ spec
     requires !old(writer).failed@,
+        runtime.writable(),                                                            // [C02:scope_has_assignment_and_counter_layers]
     ensures
         sink_safe(*old(writer), *final(writer), r),                                              // [C10:case_failed_sink_is_error]
         // exactly one branch: the first arm with an equal value, otherwise the else block, otherwise nothing
@@ -227,7 +230,7 @@ impl Case {
 //@ loop 0 kind=for
     invariant
         0 <= it.index@ <= self.cases@.len(),
-        !writer.failed@, writer.log@ == old(writer).log@,
+        !writer.failed@, runtime.writable(), writer.log@ == old(writer).log@,
         self.target.denotes(runtime) == Some(value.vid()),
         first_arm(self.cases@, value.vid(), runtime, 0) == first_arm(self.cases@, value.vid(), runtime, it.index@),
 //@ end
